@@ -50,7 +50,9 @@ def main(argv=None):
         return 2
 
 
+import logging
 import warnings
+logging.disable(logging.CRITICAL)   # the services log through the logging module; a check's verdict is its stdout
 warnings.filterwarnings("ignore", category=RuntimeWarning, message="coroutine .* was never awaited")
 
 if __name__ == "__main__":
